@@ -20,7 +20,7 @@ def valid_case(rng, maxlen, allow_nonl=True):
 def run(R):
     if not R.build():
         return
-    R.lean(["C01", "C01Driver", "C01Run", "C19Main", "C01RunContext", "C01RunGit", "C01RunNormal"])
+    R.lean(["C01", "C01Driver", "C01Run", "C19Main", "C01RunContext", "C01RunGit", "C01RunNormal", "C01RunCreate", "C01RunDelete"])
     import hunted
     hunted.run(R, "C01")
     quick = R.tier == "quick"
